@@ -477,6 +477,42 @@ fn run(op: &Value) -> Value {
                 .into_iter().map(|(k, v)| (k.to_string(), v.to_string())).collect();
             json!({"ok": params == want, "params": format!("{:?}", params)})
         }
+        "error_encode_doubles" => {
+            // C17: a double parameter is encoded as one text that parses back to the same number, for every class of double
+            use conjure_error::{ErrorCode, ErrorType};
+            #[derive(serde::Serialize)]
+            struct D { d: f64, f: f32, od: Option<f64> }
+            impl ErrorType for D {
+                fn code(&self) -> ErrorCode { ErrorCode::Internal }
+                fn name(&self) -> &str { "Ns:D" }
+                fn instance_id(&self) -> Option<conjure_object::Uuid> { None }
+                fn safe_args(&self) -> &'static [&'static str] { &["d"] }
+            }
+            let mut bad: Vec<String> = vec![];
+            for v in [f64::NAN, -f64::NAN, f64::INFINITY, f64::NEG_INFINITY, 0.0, -0.0, 15.0, -0.5, 0.1, 1e300, -1e-300, 5e-324, f64::MAX, f64::MIN_POSITIVE, 9007199254740993.0, 1e21, 1.5e16] {
+                let se = conjure_error::encode(&D { d: v, f: v as f32, od: Some(v) });
+                for (k, want32) in [("d", false), ("od", false), ("f", true)] {
+                    match se.parameters().get(k) {
+                        None => bad.push(format!("{:?}: no entry {}", v, k)),
+                        Some(t) => {
+                            let same = if want32 {
+                                t.parse::<f32>().map(|b| b.to_bits() == (v as f32).to_bits() || (b.is_nan() && v.is_nan())).unwrap_or(false)
+                            } else {
+                                t.parse::<f64>().map(|b| b.to_bits() == v.to_bits() || (b.is_nan() && v.is_nan())).unwrap_or(false)
+                            };
+                            if !same { bad.push(format!("{:?}: {} encoded as {:?}", v, k, t)); }
+                        }
+                    }
+                }
+                if se.parameters().len() != 3 { bad.push(format!("{:?}: {} entries", v, se.parameters().len())); }
+                // the same text must reach the service error's parameter sets
+                let e = conjure_error::Error::service_safe("x", D { d: v, f: 0.0, od: None });
+                let sp: Vec<String> = e.safe_params().iter().filter(|(k, _)| *k == "d").map(|(_, a)| conjure_serde::json::to_string(a).unwrap_or_default()).collect();
+                let txt = se.parameters().get("d").cloned().unwrap_or_default();
+                if sp != vec![serde_json::to_string(&txt).unwrap()] { bad.push(format!("{:?}: safe param d = {:?}, encoded {:?}", v, sp, txt)); }
+            }
+            json!({"ok": bad.is_empty(), "bad": bad})
+        }
         "loopback_gen" => {
             // C04: the client emitted by the real generator wired to the #[conjure_endpoints] trait emitted by the real generator
             use conjure_http::client::{Client, RequestBody, Service as ClientService};
@@ -936,6 +972,33 @@ fn run(op: &Value) -> Value {
                 "u8" => k!(u8), "u16" => k!(u16), "u32" => k!(u32), "u64" => k!(u64), "u128" => k!(u128),
                 _ => json!({"error": "ty"}),
             }
+        }
+        "any_nested" => {
+            // C13: an Any nested inside a static type survives a trip through the outer Any unchanged (kind included), for every width
+            use conjure_object::Any;
+            use std::collections::BTreeMap;
+            let leaves: Vec<(&str, Any)> = vec![("i8", Any::new(-5i8).unwrap()), ("i16", Any::new(-300i16).unwrap()), ("i32", Any::new(-70000i32).unwrap()), ("i64", Any::new(i64::MIN).unwrap()),
+                ("u8", Any::new(200u8).unwrap()), ("u16", Any::new(60000u16).unwrap()), ("u32", Any::new(4000000000u32).unwrap()), ("u64", Any::new(u64::MAX).unwrap()),
+                ("f32", Any::new(0.1f32).unwrap()), ("f64", Any::new(0.1f64).unwrap()), ("i128", Any::new(i128::MIN).unwrap()), ("u128", Any::new(u128::MAX).unwrap()),
+                ("bool", Any::new(true).unwrap()), ("str", Any::new("x").unwrap()), ("unit", Any::new(()).unwrap())];
+            let mut bad: Vec<String> = vec![];
+            for (k, leaf) in &leaves {
+                let list = vec![leaf.clone()];
+                let back = Any::new(&list).and_then(|a| a.deserialize_into::<Vec<Any>>());
+                if back.as_ref().ok() != Some(&list) { bad.push(format!("list<any> of {}: {:?}", k, back.map(|b| format!("{:?}", b)).map_err(|e| e.to_string()))); }
+                let mut m = BTreeMap::new(); m.insert("k".to_string(), leaf.clone());
+                let back = Any::new(&m).and_then(|a| a.deserialize_into::<BTreeMap<String, Any>>());
+                if back.as_ref().ok() != Some(&m) { bad.push(format!("map<string, any> of {}", k)); }
+                let o = Some(leaf.clone());
+                let back = Any::new(&o).and_then(|a| a.deserialize_into::<Option<Any>>());
+                if *k != "unit" && back.as_ref().ok() != Some(&o) { bad.push(format!("optional<any> of {}", k)); }   // Some(unit) is null, which an optional reads as absent
+                let back = Any::new(leaf).and_then(|a| a.deserialize_into::<Any>());
+                if back.as_ref().ok() != Some(leaf) { bad.push(format!("any of {}", k)); }
+                let direct = serde_json::to_string(&list).ok();
+                let via = Any::new(&list).ok().and_then(|a| a.deserialize_into::<Vec<Any>>().ok()).and_then(|b| serde_json::to_string(&b).ok());
+                if direct != via { bad.push(format!("document of list<any> of {}: {:?} vs {:?}", k, direct, via)); }
+            }
+            json!({"ok": bad.is_empty(), "bad": bad})
         }
         "any_prim" => {
             use conjure_object::Any;
